@@ -60,6 +60,47 @@ Proof.
   destruct (Nat.eqb_spec n len); [contradiction|]. unfold mzero. ring.
 Qed.
 
+(* ---- fantasy likelihood: [old noise; new noise] in the order of the joint inputs ---------- *)
+Lemma R_fantasy_entry n m old new l i j :
+  R_fantasy n m old new l i j =
+  if Nat.eqb i j then (if Nat.ltb i n then old i else new (i - n)%nat) + opt0 l else 0.
+Proof. unfold R_fantasy. rewrite R_fixed_stored. reflexivity. Qed.
+
+(* block diagonal of the two likelihoods' own operators: old points first, appended points last *)
+Lemma R_fantasy_blocks n m old new l :
+  meq (n + m) (n + m) (R_fantasy n m old new l)
+      (blk n n (R_fixed n n old None l) mzero mzero (R_fixed m m new None l)).
+Proof.
+  intros i j Hi Hj. rewrite R_fantasy_entry. unfold blk. rewrite !R_fixed_stored. unfold mzero.
+  destruct (Nat.ltb_spec i n) as [Hin|Hin], (Nat.ltb_spec j n) as [Hjn|Hjn].
+  - reflexivity.
+  - destruct (Nat.eqb_spec i j); [lia|reflexivity].
+  - destruct (Nat.eqb_spec i j); [lia|reflexivity].
+  - destruct (Nat.eqb_spec i j) as [->|Hne].
+    + rewrite Nat.eqb_refl. reflexivity.
+    + destruct (Nat.eqb_spec (i - n) (j - n)); [lia|reflexivity].
+Qed.
+
+(* two successive fantasy steps store old ++ new1 ++ new2 *)
+Lemma cat_fn_assoc n m1 (old new1 new2 : nat -> car) i :
+  cat_fn (n + m1) (cat_fn n old new1) new2 i = cat_fn n old (cat_fn m1 new1 new2) i.
+Proof.
+  unfold cat_fn.
+  destruct (Nat.ltb_spec i (n + m1)) as [H1|H1], (Nat.ltb_spec i n) as [H2|H2]; try reflexivity; try lia.
+  - destruct (Nat.ltb_spec (i - n) m1); [reflexivity|lia].
+  - destruct (Nat.ltb_spec (i - n) m1); [lia|]. f_equal. lia.
+Qed.
+
+Lemma R_fantasy_twice n m1 m2 old new1 new2 l :
+  meq (n + m1 + m2) (n + m1 + m2)
+      (R_fantasy (n + m1) m2 (cat_fn n old new1) new2 l)
+      (R_fantasy n (m1 + m2) old (cat_fn m1 new1 new2) l).
+Proof.
+  intros i j Hi Hj. rewrite !R_fantasy_entry.
+  destruct (Nat.eqb i j); [|reflexivity]. f_equal.
+  exact (cat_fn_assoc n m1 old new1 new2 i).
+Qed.
+
 (* without a learned part the forwarding variant coincides with the specification *)
 Lemma R_fixed_forwarding_no_learned n len stored call i j :
   R_fixed_forwarding n len stored call None i j = R_fixed n len stored call None i j.
@@ -149,6 +190,26 @@ Proof.
   exists (fun _ => qc 2 5), (qc 1 20). intros H.
   apply (f_equal (fun q : Qc => Qeq_bool (this q) (9 # 20))) in H.
   vm_compute in H. discriminate H.
+Qed.
+
+(* ---- the swapped order [new noise; old noise] is NOT the fantasy likelihood: 1 + 1 points ---- *)
+Lemma R_fantasy_new_first_refuted :
+  exists (old new : nat -> Qc),
+    R_fixed (K:=QcF) 2%nat 2%nat (cat_fn (K:=QcF) 1%nat new old) None None O O
+    <> R_fantasy (K:=QcF) 1%nat 1%nat old new None O O.
+Proof.
+  exists (fun _ => qc 1 4), (fun _ => qc 3 1). intros H.
+  apply (f_equal (fun q : Qc => Qeq_bool (this q) (1 # 4))) in H.
+  vm_compute in H. discriminate H.
+Qed.
+
+(* the executable layer: list concatenation is cat_fn (used by R_of for LFantasy) *)
+Lemma fn_of_list_app (old nw : list Qc) i :
+  fn_of_list (old ++ nw) i = cat_fn (K:=QcF) (length old) (fn_of_list old) (fn_of_list nw) i.
+Proof.
+  unfold fn_of_list, cat_fn. destruct (Nat.ltb_spec i (length old)).
+  - apply app_nth1. assumption.
+  - apply app_nth2. assumption.
 Qed.
 
 (* ---- LikelihoodList routing ---------------------------------------------------------- *)
